@@ -74,10 +74,15 @@ Print Assumptions declare_var_through_block_rejected.
        class-expression names (agreeing since faa3812; the label machine of the proof has no step for the merge of
        the pending uses into the name), x => ... and the arrow cover grammar (UndeclareScope).
    These are checked by the correspondence runs and the oracle only (KNOWN_FINDINGS.txt, keys c04-es:... and
-   c04-reject:...); resolution_repaired_witnesses holds the former counterexamples.
+   c04-reject:...); resolution_repaired_witnesses holds the former counterexamples.  That the fragment excludes
+   nothing else is checked on every generated program without redeclaration error (oracle key
+   c04-harness:fragment-not-exact: in [core_x] iff free of the four syntactic shapes above and of class-expression
+   names, x => ... and parenthesised covers; [core_x] itself is compared with the harness's reading on every program
+   of the end-to-end correspondence).
    Example (hypotheses satisfiable, non-trivial partition): Main.example_hyps, Main.example_partition,
    Main.example_d_hyps, Main.example_d_partition (default values), Main.example_c_hyps,
-   Main.example_c_partition (classes), Main.example_x_hyps, Main.example_x_partition (loops, expression names). *)
+   Main.example_c_partition (classes), Main.example_x_hyps, Main.example_x_partition (loops, expression names),
+   Main.example_y_hyps, Main.example_y_partition (uses frozen by the marks of loop heads, catch patterns, parameter lists). *)
 Theorem resolution_correct_partial :
   forall p : prog,
     core_x p = true -> program_ok p = true -> Z.of_nat (occurrences p) < 65536 ->
